@@ -581,7 +581,7 @@ def targeted(ctx: Ctx) -> Iterator[Tuple[str, str]]:
                 'class E(Enum):\n    a = "a"\n\n\nSome_set: Set[str] = constant_set(values=["a"])\n\n\n'
                 f"class A:\n    x: {ty}\n\n    def __init__(self, x: {ty} = {d}) -> None:\n        self.x = x\n\n"
                 f"    @implementation_specific\n    def compute(self, y: {ty} = {d}) -> int:\n        pass\n\n\n"
-                f"@verification\n@implementation_specific\ndef check(z: {ty} = {d}) -> bool:\n    pass\n" + TAIL
+                f"@verification\n@implementation_specific\ndef is_fine(z: {ty} = {d}) -> bool:\n    pass\n" + TAIL
             )
     # deep nesting (the front end recurses over the input: RecursionError beyond ~250 levels is the known finding C01-F1) and huge literals
     def _inv(e: str) -> str:
